@@ -697,7 +697,11 @@ impl<'a> Parser<'a> {
                 Ok(GraphPattern::SubSelect(Box::new(subquery)))
             }
             _ => {
-                // Triple patterns
+                // Triple patterns. A token that cannot start a triple must be rejected here:
+                // an empty block consumes nothing and the callers loop until '}'.
+                if !self.is_triple_start() {
+                    return Err(self.error("expected graph pattern"));
+                }
                 let triples = self.parse_triples_block()?;
                 Ok(GraphPattern::Basic(triples))
             }
